@@ -21,6 +21,33 @@ import stix2  # noqa: E402
 from stix2.base import _STIXBase  # noqa: E402
 
 
+# custom types registered "on request" in this process (both spec versions): references to them,
+# members of them and extensions of them are then resolvable by the library
+REGISTERED = {"objects": ["x-registered-object", "registered-plain-object"], "observables": ["x-registered-observable"],
+              "extensions": ["x-registered-ext"]}
+
+
+def _register():
+    P = stix2.properties
+    for mod, ver in ((stix2.v20, "2.0"), (stix2.v21, "2.1")):
+        for t in REGISTERED["objects"]:
+            mod.CustomObject(t, [("name", P.StringProperty(required=True))])(type("Reg" + t.title().replace("-", ""), (object,), {}))
+        for t in REGISTERED["observables"]:
+            if ver == "2.1":
+                mod.CustomObservable(t, [("value", P.StringProperty(required=True))], ["value"])(type("RegObs", (object,), {}))
+            else:
+                mod.CustomObservable(t, [("value", P.StringProperty(required=True))])(type("RegObs", (object,), {}))
+    stix2.v20.CustomExtension("x-registered-ext", [("rank", P.IntegerProperty(required=True))])(type("RegExt", (object,), {}))
+    stix2.v21.CustomExtension("x-registered-ext", [("rank", P.IntegerProperty(required=True))])(type("RegExt", (object,), {}))
+
+
+try:
+    _register()
+    REGISTRATION_ERROR = None
+except Exception as _e:  # noqa: BLE001
+    REGISTRATION_ERROR = type(_e).__name__ + ": " + str(_e)[:200]
+
+
 def find_class(cid):
     ver, name = cid.split("/")
     mod = stix2.v20 if ver == "2.0" else stix2.v21
@@ -50,6 +77,8 @@ def attempt(f):
 
 def observe(case):
     out = {}
+    if REGISTRATION_ERROR:
+        out["registration_error"] = REGISTRATION_ERROR
     ok, obj, err = attempt(lambda: make(case, False))
     out["strict_ok"] = ok
     out["strict_err"] = err
